@@ -289,6 +289,15 @@ def _check(args):
                 r["default"] = rng.choice(["5", "0", "12", "100"])
             if r.get("name") and rng.random() < 0.2 and not r["type"].startswith(("begin", "end")):
                 r["required"] = rng.choice(["TRUE", "FALSE"])
+    multiline = False
+    if i % 4 == 3:
+        # a cell holding line breaks (or characters str.splitlines() would break on): representable in csv and spreadsheets, not in md
+        rx = rng_for(seed, PID, "multiline", i)
+        cands = [(r, k) for r in form["survey"] for k in r if k.startswith(("label", "hint")) and "${" not in r[k]]
+        if cands:
+            r, k = rx.choice(cands)
+            r[k] = rx.choice(["First line\nSecond line", "a\r\nb", "x\u2028y", "p\x85q", "one\n\ntwo", "l1\nl2\nl3", "u\u2029v"])
+            multiline = True
     typed_cells = rng.random() < 0.6
     pad = rng.random() < 0.6
     gr = grids(form, rng, typed_cells, pad)
@@ -305,7 +314,7 @@ def _check(args):
     base_grid = base if form_grid == form else base_of(form_grid)
     if base is None or base_grid is None:
         return {"i": i, "skip": "crash (C17)"}
-    md = forms.as_md(form)
+    md = forms.as_md(form) if not multiline else ""
     csvs = forms.as_csv(form)
     xb = xlsx_bytes(gr, typed_cells)
     variants = []
@@ -325,6 +334,8 @@ def _check(args):
                      ("xlsx/path", lambda: convert(path_of(xb, ".xlsx"))), ("xlsm/path", lambda: convert(path_of(xb, ".xlsm"))),
                      ("xlsx/file", lambda: convert(open(path_of(xb, ".xlsx"), "rb")))]
         variants += [("xls/fake", lambda: convert_xls_fake(gr, typed_cells))]
+        if multiline:
+            variants = [v for v in variants if not v[0].startswith("md")]
         chosen = rng.sample(variants, 6) + [variants[-1]]
         for name, fn in chosen:
             try:
